@@ -18,10 +18,12 @@ def sh(cmd, cwd=None, timeout=3000):
 
 
 def main():
-    pid = sys.argv[1]
-    checks = sys.argv[2:] or [pid]
-    wt = Path(f"/tmp/seed_{pid}")
-    out = Path(f"/tmp/seed_{pid}_out")
+    args = [a for a in sys.argv[1:] if not a.startswith("--prefix=")]
+    prefix = next((a.split("=", 1)[1] for a in sys.argv[1:] if a.startswith("--prefix=")), "seed")
+    pid = args[0]
+    checks = args[1:] or [pid]
+    wt = Path(f"/tmp/{prefix}_{pid}")
+    out = Path(f"/tmp/{prefix}_{pid}_out")
     patch = out / "patch.diff"
     meta = json.loads((out / "meta.json").read_text())
     rec = {"property": pid, "summary": meta.get("summary"), "needs": meta.get("needs"), "files": meta.get("files"), "ran": {}}
@@ -37,7 +39,7 @@ def main():
     demo_sh = out / "demo.sh"
     def run_demo():
         if demo_cpp.exists():
-            rc, o = sh(f"g++ -std=c++14 -msse4 -I{wt}/src {demo_cpp} {wt}/src/*.cpp -lz -llzma -lpthread -o /tmp/seed_{pid}_demo 2>&1 | tail -3; /tmp/seed_{pid}_demo; echo EXIT=$?", cwd=out, timeout=900)
+            rc, o = sh(f"g++ -std=c++14 -msse4 -I{wt}/src {demo_cpp} {wt}/src/*.cpp -lz -llzma -lpthread -o /tmp/{prefix}_{pid}_demo 2>&1 | tail -3; /tmp/{prefix}_{pid}_demo; echo EXIT=$?", cwd=out, timeout=900)
         else:
             rc, o = sh(f"bash {demo_sh}; echo EXIT=$?", cwd=out, timeout=900)
         return o.strip().splitlines()[-1] if o.strip() else "", o[-600:]
@@ -68,10 +70,11 @@ def main():
         sh("git -C /repo checkout -- .")
     # 3. store
     n = 0
-    dst = Path(f"/verif/seeded/{pid}")
+    tag = "" if prefix == "seed" else "-r" + prefix[4:]
+    dst = Path(f"/verif/seeded/{pid}{tag}")
     while dst.exists():
         n += 1
-        dst = Path(f"/verif/seeded/{pid}-{n}")
+        dst = Path(f"/verif/seeded/{pid}{tag}-{n}")
     dst.mkdir(parents=True)
     shutil.copy(patch, dst / "patch.diff")
     for f in (demo_cpp, demo_sh):
